@@ -42,3 +42,9 @@ PROP["explanation"] += " Note on strength: C09_order, C09_iff, C09_compose and t
 PROP["wiring"] = dict(inside=["h_model"], outside=["h_host", "h_sim"],
                       commands=["hp.lethal", "hp.survival", "hp.stepfwd", "hp.mortality", "hp.manage", "hp.spread", "hp.overpop", "hp.movement"])
 PROP["explanation"] += " Differential wiring rule: the same L1 predicates judge the actions called directly (h_host, h_sim) and the action blocks inside Model::run_step (h_model); a predicate that fails only inside the model - wrong argument, moment or object handed to a correct action - is reported as a C09 violation with the failing step."
+
+# --- shared predicate: the schedules Model::run_step consults are built by Config::create_schedules from the frequency
+# strings and their n; the predicate config_wiring (tagged C08, on cfgsched lines of h_date config) judges exactly the
+# "its schedule marks the step" half of C09, so its failures are violations of C09 too (seeded change C09k)
+PROP["shared_predicates"] = [("C08", "cfgsched")]
+PROP["explanation"] += " A failure of the config_wiring predicate (Config::create_schedules hands each feature the schedule its own frequency string and n describe; h_date config cases, also with one frequency string shared by the four name-built schedules and different n) is reported as a violation of C09 as well as of C08."
